@@ -60,7 +60,7 @@ NOTES = {
                 "indexed position; kinds 3..127 are rejected; flags are always the configured ones; resolution never panics (missing index/range, pda = none, unknown kind all give errors); constructors "
                 "store exactly the seed list / key / key-data / index+128 and reject index >= 128.",
         "design_ref": "§5 C05",
-        "note": TB + "Solana's PDA search is a parameter (validated executable instance in SplModel/Ed25519.lean).",
+        "note": TB + "the arms of `match self.discriminator` in resolve (patterns and guards) are regenerated from the source and proved to dispatch as the model does (C05_source_dispatch); Solana's PDA search is a parameter (validated executable instance in SplModel/Ed25519.lean).",
         "technique": "Lean 4 theorem parametric in the PDA function (kernel-checked) + differential correspondence on final derived keys",
     },
     "C01": {
@@ -120,7 +120,7 @@ NOTES = {
                 "never panics, yields exactly the seeds back to back followed by zeros, and unpacking that returns the identical list; for every 32-byte array unpacking is total and a success "
                 "re-packs to the consumed prefix + zeros; the same for key-data configs and every byte prefix. The model writes through panicking slice primitives and uses the code's saturating one-byte size.",
         "design_ref": "§5 C11",
-        "note": TB + "u8 fields are UInt8, Vec<u8> literals are unbounded lists.",
+        "note": TB + "packed sizes and tag bytes are regenerated from the arms of tlv_size / pack / unpack in the source and proved to be the model's (C11_source_sizes, C11_source_tags); u8 fields are UInt8, Vec<u8> literals are unbounded lists.",
         "technique": "Lean 4 theorem (all seed lists / all 32-byte arrays, kernel-checked) + differential correspondence incl. exact error codes as fidelity notes",
     },
     "C18": {
